@@ -1298,6 +1298,7 @@ static int cfg_parse_internal(cfg_t *cfg, int level, int force_state, cfg_opt_t 
 	cfg_opt_t funcopt = CFG_STR(NULL, NULL, 0);
 
 	int ignore = 0;		/* ignore until this token, traverse parser w/o error */
+	int depth = 0;		/* brace nesting inside an ignored (unknown) section */
 	int num_values = 0;	/* number of values found for a list option */
 	int rc;
 
@@ -1586,30 +1587,25 @@ static int cfg_parse_internal(cfg_t *cfg, int level, int force_state, cfg_opt_t 
 			}
 			break;
 
-		case 10: /* unknown option, mini-discard parser states: 10-15 */
+		case 10: /* unknown option, mini-discard parser states: 10-14 */
 			if (comment) {
 				free(comment);
 				comment = NULL;
 			}
 
-			if (tok == '+') {
-				ignore = '=';
-				state = 13; /* Append to list, should be followed by '=' */
-			} else if (tok == '=') {
-				ignore = 0;
-				state = 14; /* Assignment, regular handling */
+			if (tok == '+' || tok == '=') {
+				state = 14; /* Assignment or append, value or list follows */
 			} else if (tok == '(') {
 				ignore = ')';
 				state = 13; /* Function, ignore until end of param list */
 			} else if (tok == '{') {
+				depth = 1;
 				state = 12; /* Section, ignore all until closing brace */
 			} else if (tok == CFGT_STR) {
 				state = 11; /* No '=' ... must be a titled section */
-			} else if (tok == '}' && force_state == 10) {
-				if (comment)
-					free(comment);
-
-				return STATE_CONTINUE;
+			} else {
+				cfg_error(cfg, _("unexpected token '%s'"), cfg_yylval);
+				goto error;
 			}
 			break;
 
@@ -1618,34 +1614,22 @@ static int cfg_parse_internal(cfg_t *cfg, int level, int force_state, cfg_opt_t 
 				cfg_error(cfg, _("unexpected token '%s'"), cfg_yylval);
 				goto error;
 			}
+			depth = 1;
 			state = 12;
 			break;
 
-		case 12: /* unknown option, recursively ignore entire sub-section */
-			rc = cfg_parse_internal(cfg, level + 1, 10, NULL);
-			if (rc != STATE_CONTINUE)
-				goto error;
-			ignore = '}';
-			state = 13;
+		case 12: /* unknown section, ignore everything up to its closing brace */
+			if (tok == '{') {
+				depth++;
+			} else if (tok == '}') {
+				if (--depth == 0)
+					state = 0;
+			}
 			break;
 
 		case 13: /* unknown option, consume tokens silently until end of func/list */
 			if (tok != ignore)
 				break;
-
-			if (ignore == '=') {
-				ignore = 0;
-				state = 14;
-				break;
-			}
-
-			/* Are we done with recursive ignore of sub-section? */
-			if (force_state == 10) {
-				if (comment)
-					free(comment);
-
-				return STATE_CONTINUE;
-			}
 
 			ignore = 0;
 			state = 0;
@@ -1663,15 +1647,7 @@ static int cfg_parse_internal(cfg_t *cfg, int level, int force_state, cfg_opt_t 
 				goto error;
 			}
 
-			ignore = 0;
-			if (force_state == 10)
-				state = 15;
-			else
-				state = 0;
-			break;
-
-		case 15: /* unknown option, dummy read of next parameter in sub-section */
-			state = 10;
+			state = 0;
 			break;
 
 		default:
